@@ -936,6 +936,27 @@ def run(tier):
     chk.adopt('C10.R10', 'the exit with status 1 is not discarded by a '
               'return / break / continue inside a finally block (shared '
               'with C05.R9)', sub5)
+    from .. import streams
+    chk.guard(streams.report, chk, prog, 'C10.R11',
+              'the run record carries each stream under its own name (the '
+              'golden-run validation of --match-out / --match-err reads the '
+              'stream it names)',
+              'a golden run that lacks the match string on the named stream is not refused with status 1 (and one that has it is)')
+    from .. import sigchld
+    chk.guard(sigchld.report, chk, prog, 'C10.R12',
+              'the disposition of SIGCHLD is never changed and no process '
+              'waits for "any child": a command killed by its CPU / memory '
+              'limit is seen as killed',
+              'candidates on which the command dies from a limit or a signal are recorded with exit code 0 and accepted')
+    from . import c09 as _c09b
+    sub09b = Check('C09', 'other', tier, [], [])
+    chk.guard(_c09b.rule_r6, sub09b, prog)
+    Check.restrict(sub09b, lambda wh, what: 'tmpfiles' in str(wh))
+    chk.adopt('C10.R13', 'each checking process / thread has its own '
+              'candidate file (pid and thread id evaluated per call): a '
+              'candidate on which the command does not terminate is not '
+              'overwritten by a harmless one while the command starts up '
+              '(shared with C09.R6)', sub09b)
     extra = None
     if tier == 'thorough':
         from .. import selftest
